@@ -11,7 +11,7 @@ def run(ctx):
         'float / char / string element types differ only in their PartialOrd and are outside the decided instantiations',
         'a 20-element sample is decided with concrete scrambled data (distinct u16 values) and symbolic ranks/kinds: every rank pair l <= h < 20; samples above 20 elements are outside the element-level bound (48 concrete elements did not finish in 900 s); the rank arithmetic does not depend on the data',
     ]
-    core.run_kani_set(ctx, ['c03_', 'c06_wilson_quantile_per_call'], bound='data 4-5 elements of u8; n <= 12 symbolic + grid', harness_timeout=900)
+    core.run_kani_set(ctx, ['c03_', 'c06_wilson_quantile_per_call', 'c02_wilson_outcome_class'], bound='data 4-5 elements of u8; n <= 12 symbolic + grid', harness_timeout=900)
     if ctx.tier == 'thorough':
         core.run_kani_set(ctx, ['t03_'], bound='n <= 64 symbolic + larger grid', harness_timeout=3000)
     # engine M: the Wilson bounds the ranks are computed from obtain their critical value from the oracle in THIS call
